@@ -6,6 +6,7 @@ import RsjProofs.Sort
 import RsjProofs.SortUniq
 import RsjProofs.SortSets
 import RsjProofs.SortSearch
+import RsjProofs.SortMap
 namespace Rsj.Sort
 
 variable {α κ : Type} {O : KeyOrd κ}
